@@ -42,9 +42,6 @@ func (e StdEng) Map(fn interface{}, a Tensor, opts ...FuncOpt) (retVal Tensor, e
 		}
 		// the function is applied to a's elements, so they have to be in the reuse tensor first
 		if !incr && Tensor(reuse) != a {
-			if err = reuseCheckShape(reuse, a.Shape()); err != nil {
-				return nil, errors.Wrapf(err, "Reuse shape check failed")
-			}
 			if err = Copy(reuse, a); err != nil {
 				return nil, errors.Wrapf(err, "StdEng.Map")
 			}
